@@ -17,7 +17,7 @@ RULE = ("well-formed server streams of 5..80 def*/set*/delProperty/message/ping/
         "modes: straight into BaseClient.process_message, into a SnoopingClient, and into the real two-connection Client started through "
         "Client.start() whose BLOB connection comes up 0..40 loop iterations late. After EVERY message the client's public "
         "view is compared with an independent reference interpreter; the receive-loop task must stay alive, nothing may be raised, "
-        "every Buffer.process call runs under a step budget. non-trivial = a stream in which at least 3 messages changed the mirror; "
+        "every Buffer.process call runs under a step budget. In the byte-stream modes one message in eight is preceded by an update of a known property that carries no state and no element: the mirror must stay as it is. non-trivial = a stream in which at least 3 messages changed the mirror; "
         "distinct = hash(stream, spelling seed, fragmentation, mode)")
 ASSUMPTIONS = ["messages on a control-mode connection stay below its 2048-character threshold (BLOB-mode connections get payloads up to 6000 bytes)", "BLOB sizes in the stream are consistent with their payloads"]
 REQUIRED_EVENTS = ["updates_without_a_state_ahead_of_a_message", "streams", "messages_applied", "views_compared", "wire_mode_streams", "direct_mode_streams", "snoop_mode_streams", "client_mode_streams",
@@ -103,7 +103,8 @@ async def run_stream(ctx, case):
                 # accept it at all, the mirror stays as it is - in particular the property's state.
                 d_, p_, kind_ = frng.choice(known)
                 extra_ = frng.choice(["", ' timeout="5"', ' message="still here"', ' timestamp="2024-01-02T03:04:05"'])
-                text = f'<set{kind_}Vector device="{G._esc_attr(d_, '"', 2)}" name="{G._esc_attr(p_, '"', 2)}"{extra_}/>\n' + text
+                dq_ = chr(34)
+                text = f'<set{kind_}Vector device="{G._esc_attr(d_, dq_, 2)}" name="{G._esc_attr(p_, dq_, 2)}"{extra_}/>\n' + text
                 ctx.count("updates_without_a_state_ahead_of_a_message")
             mcase = dict(case, message_index=k)
             detail = {"message": text, "previous_messages": len(msgs[:k])}
